@@ -142,7 +142,7 @@ Section LongPanel.
                (map snd (filter (fun r => r_inst r =? id) R))))).
     2:{ intros id _. f_equal. rewrite filter_map_comm, !map_map. reflexivity. }
     unfold mi_rows. rewrite enum_enum_from.
-    rewrite (map_filter_blocks r_inst (block_rows T) (block_rows_key n c T p)
+    rewrite (map_filter_blocks r_inst (block_rows T) (block_rows_key T)
                (fun l => transpose (length s) (map (select s nms) (map snd l))) 0 p).
     unfold sort_vars. fold s. rewrite <- (enum_from_snd 0 p) at 2. rewrite map_map.
     apply map_ext_in. intros [i inst] Hin. cbn [snd]. rewrite block_rows_snd.
@@ -192,13 +192,11 @@ Section LongPanel.
     long_to_nested cn L = long_to_nested cn (mi_melt (mkM nms R)).
   Proof.
     intro Hp. unfold long_to_nested. f_equal. f_equal. symmetry.
-    assert (Hp' : Permutation (melt_rowmajor nms R) L).
-    { etransitivity; [|exact Hp].
-      apply (melt_perm nms R c Hc (mi_rows_width n c T p Hwf)). }
-    pose proof (melt_rowmajor_uniq nms R Hnd mi_rows_keys_sorted) as Hu.
-    rewrite <- (long_pivot_perm _ _ Hu Hp').
-    rewrite <- (long_pivot_perm _ _ Hu (melt_perm nms R c Hc (mi_rows_width n c T p Hwf))).
-    reflexivity.
+    assert (Hc1 : (1 <= c)%nat) by (destruct Hwf; lia).
+    pose proof (melt_perm nms R c Hc Hc1 (mi_rows_width n c T p Hwf)) as Hm.
+    assert (Hp' : Permutation (melt_rowmajor nms R) L) by (etransitivity; eassumption).
+    pose proof (melt_rowmajor_uniq nms R c Hnd Hc Hc1 mi_rows_keys_sorted) as Hu.
+    rewrite <- (long_pivot_perm _ _ Hu Hp'), <- (long_pivot_perm _ _ Hu Hm). reflexivity.
   Qed.
 End LongPanel.
 
@@ -287,9 +285,8 @@ Section Paths.
   Proof.
     intros [n [k [T [Hwf Hn]]]]. exists n, k, T.
     assert (Hk : ncols_of c = k) by (apply (wf_shape_cols n k T _ Hwf)).
-    unfold cnames. rewrite Hk. repeat split; try assumption.
-    - apply names_or_default_length. exact Hn.
-    - apply names_or_default_NoDup. exact Hn.
+    unfold cnames. rewrite Hk. split; [exact Hwf|]. split; [reflexivity|].
+    split; [apply names_or_default_length|apply names_or_default_NoDup]; exact Hn.
   Qed.
 
   Lemma render_mi_of c n k T :
@@ -303,57 +300,58 @@ Section Paths.
     apply_edge e (render t c) = result (sem e (t, c)) /\
     (forall t' c', sem e (t, c) = Some (t', c') -> cwf c').
   Proof.
-    intros Hc He. destruct (cwf_facts c Hc) as [n [k [T [Hwf [Hk [Hl Hnd]]]]]].
-    pose proof (render_mi_of c n k T Hwf) as Hmi.
-    assert (Hsame : forall cn, names_ok k cn -> cwf (mkC cn (c_data c))).
-    { intros cn Hcn. exists n, k, T. split; assumption. }
+    intros Hc He. destruct (cwf_facts c Hc) as [n [w [T [Hwf [Hk [Hl Hnd]]]]]].
+    pose proof (render_mi_of c n w T Hwf) as Hmi.
+    assert (Hsame : forall cn, names_ok w cn -> cwf (mkC cn (c_data c))).
+    { intros cn Hcn. exists n, w, T. split; assumption. }
     destruct e, t; cbn [sem render apply_edge check_X result edge_ok] in *;
       try (split; [reflexivity|discriminate]).
-    - (* N > A *) split; [reflexivity|]. intros t' c' H. inversion H; subst. apply Hsame. exact I.
+    - (* N > A *) split; [reflexivity|]. intros t' c' H. inversion H; subst t' c'. apply Hsame. exact I.
     - (* A > N *) rewrite Hk in He. split.
-      + rewrite (a3_to_nested_eq n k T _ Hwf). unfold cnames, ncols_of. cbn [c_names c_data].
-        rewrite (wf_shape_cols n k T _ Hwf). reflexivity.
-      + intros t' c' H. inversion H; subst. apply Hsame. exact He.
+      + rewrite (a3_to_nested_eq n w T _ Hwf). unfold cnames, ncols_of. cbn [c_names c_data].
+        rewrite (wf_shape_cols n w T _ Hwf). reflexivity.
+      + intros t' c' H. inversion H; subst t' c'. apply Hsame. exact He.
     - (* A > M *) rewrite Hk in He. split.
-      + rewrite (a3_to_mi_eq n k T _ Hwf). unfold mi_of, cnames, ncols_of. cbn [c_names c_data].
-        rewrite (wf_shape_cols n k T _ Hwf), (wf_shape_time n k T _ Hwf). reflexivity.
-      + intros t' c' H. inversion H; subst. apply Hsame. exact He.
+      + rewrite (a3_to_mi_eq n w T _ Hwf). unfold mi_of, cnames, ncols_of. cbn [c_names c_data].
+        rewrite (wf_shape_cols n w T _ Hwf), (wf_shape_time n w T _ Hwf). reflexivity.
+      + intros t' c' H. inversion H; subst t' c'. apply Hsame. exact He.
     - (* M > A *) split.
-      + rewrite Hmi, (mi_to_3d_rows n k T _ Hwf _ Hl). reflexivity.
-      + intros t' c' H. inversion H; subst. apply Hsame. exact I.
+      + rewrite Hmi, (mi_to_3d_rows n w T _ Hwf _ Hl). reflexivity.
+      + intros t' c' H. inversion H; subst t' c'. apply Hsame. exact I.
     - (* N > M *) split.
-      + rewrite (nested_to_mi_eq n k T _ Hwf), Hmi. reflexivity.
-      + intros t' c' H. inversion H; subst. exact Hc.
+      + rewrite (nested_to_mi_eq n w T _ Hwf), Hmi. reflexivity.
+      + intros t' c' H. inversion H; subst t' c'. exact Hc.
     - (* M > N *) split.
-      + rewrite Hmi, (mi_to_nested_rows n k T _ Hwf _ _ Hl). reflexivity.
-      + intros t' c' H. inversion H; subst. exact Hc.
+      + rewrite Hmi, (mi_to_nested_rows n w T _ Hwf _ _ Hl). reflexivity.
+      + intros t' c' H. inversion H; subst t' c'. exact Hc.
     - (* N > L *) split.
-      + unfold nested_to_long. rewrite (nested_to_mi_eq n k T _ Hwf), Hmi. reflexivity.
-      + intros t' c' H. inversion H; subst. exact Hc.
+      + unfold nested_to_long. rewrite (nested_to_mi_eq n w T _ Hwf), Hmi. reflexivity.
+      + intros t' c' H. inversion H; subst t' c'. exact Hc.
     - (* L > N *) rewrite Hk in He. split.
-      + rewrite Hmi, (long_roundtrip n k T _ _ Hwf Hnd Hl).
+      + rewrite Hmi, (long_roundtrip n w T _ _ Hwf Hnd Hl).
         unfold cnames at 2, ncols_of. cbn [c_names c_data].
-        rewrite (wf_shape_cols n k T _ (sort_vars_wf n k T _ _ Hwf Hnd Hl)). reflexivity.
-      + intros t' c' H. inversion H; subst. exists n, k, T. split; [|exact He].
+        rewrite (wf_shape_cols n w T _ (sort_vars_wf n w T _ _ Hwf Hnd Hl)). reflexivity.
+      + intros t' c' H. inversion H; subst t' c'. exists n, w, T. split; [|exact He].
         apply sort_vars_wf; assumption.
-    - (* N > T *) split; [reflexivity|]. intros t' c' H. inversion H; subst. apply Hsame. exact I.
-    - (* A > T *) split; [reflexivity|]. intros t' c' H. inversion H; subst. apply Hsame. exact I.
+    - (* N > T *) split; [reflexivity|]. intros t' c' H. inversion H; subst t' c'. apply Hsame. exact I.
+    - (* A > T *) split; [reflexivity|]. intros t' c' H. inversion H; subst t' c'. apply Hsame. exact I.
     - (* T > N *) split.
       + rewrite tab_to_nested_flat. reflexivity.
-      + intros t' c' H. inversion H; subst. exists n, 1%nat, (k * T)%nat. split.
+      + intros t' c' H. inversion H; subst t' c'. exists n, 1%nat, (w * T)%nat. split.
         * apply flattenp_wf. exact Hwf.
         * cbn. split; [reflexivity|]. constructor; [intros []|constructor].
     - (* check_X on a nested frame *)
       destruct to_np, to_pd; cbn [andb]; (split; [reflexivity|]); intros t' c' H;
-        inversion H; subst; try exact Hc. apply Hsame. exact I.
+        inversion H; subst t' c'; try exact Hc. apply Hsame. exact I.
     - (* check_X on a 3-D array *)
       destruct to_np, to_pd; cbn [andb]; try (split; [reflexivity|discriminate]).
-      + split; [reflexivity|]. intros t' c' H. inversion H; subst. exact Hc.
+      + split; [reflexivity|]. intros t' c' H. inversion H; subst t' c'. exact Hc.
       + split.
-        * rewrite (a3_to_nested_eq n k T _ Hwf). unfold cnames, ncols_of. cbn [c_names c_data].
-          rewrite (wf_shape_cols n k T _ Hwf). reflexivity.
-        * intros t' c' H. inversion H; subst. apply Hsame. exact I.
-      + split; [reflexivity|]. intros t' c' H. inversion H; subst. exact Hc.
+        * unfold check_X. cbn [andb]. rewrite (a3_to_nested_eq n w T _ Hwf).
+          unfold cnames, ncols_of. cbn [c_names c_data].
+          rewrite (wf_shape_cols n w T _ Hwf). reflexivity.
+        * intros t' c' H. inversion H; subst t' c'. apply Hsame. exact I.
+      + split; [reflexivity|]. intros t' c' H. inversion H; subst t' c'. exact Hc.
     - destruct to_np, to_pd; split; try reflexivity; discriminate.
     - destruct to_np, to_pd; split; try reflexivity; discriminate.
     - destruct to_np, to_pd; split; try reflexivity; discriminate.
@@ -414,73 +412,133 @@ Section Paths.
 
   (* --- names --- *)
 
+  (* tag and names part of [sem]: it does not look at the data *)
+  Definition nsem (e : edge) (s : tag * option (list name)) : option (tag * option (list name)) :=
+    let '(t, nm) := s in
+    match e, t with
+    | E_N_A, TN _ => Some (TA, None)
+    | E_A_N cn k, TA => Some (TN k, cn)
+    | E_A_M cn, TA => Some (TM, cn)
+    | E_M_A, TM => Some (TA, None)
+    | E_N_M, TN _ => Some (TM, nm)
+    | E_M_N k, TM => Some (TN k, nm)
+    | E_N_L, TN _ => Some (TL, nm)
+    | E_L_N cn, TL => Some (TN KSeries, cn)
+    | E_N_T, TN _ => Some (TT, None)
+    | E_A_T, TA => Some (TT, None)
+    | E_T_N k, TT => Some (TN k, Some [NInt 0])
+    | E_CheckX a b, TN k => if a && b then None else Some (if a then (TA, None) else (TN k, nm))
+    | E_CheckX a b, TA =>
+        if a && b then None else Some (if b then (TN KSeries, None) else (TA, nm))
+    | _, _ => None
+    end.
+
+  Fixpoint nsem_path (es : list edge) (s : tag * option (list name)) :=
+    match es with
+    | [] => Some s
+    | e :: es' => match nsem e s with Some s' => nsem_path es' s' | None => None end
+    end.
+
+  Lemma sem_nsem e t c t' c' :
+    sem e (t, c) = Some (t', c') -> nsem e (t, c_names c) = Some (t', c_names c').
+  Proof.
+    destruct e, t; cbn; try discriminate; intro H; try (inversion H; subst; reflexivity).
+    - destruct (to_np && to_pd); [discriminate|]. destruct to_np; inversion H; reflexivity.
+    - destruct (to_np && to_pd); [discriminate|]. destruct to_pd; inversion H; reflexivity.
+  Qed.
+
+  Lemma sem_path_nsem es t c t' c' :
+    sem_path es (t, c) = Some (t', c') -> nsem_path es (t, c_names c) = Some (t', c_names c').
+  Proof.
+    revert t c. induction es as [|e es IH]; intros t c H.
+    - inversion H. reflexivity.
+    - cbn [sem_path] in H. destruct (sem e (t, c)) as [[t1 c1]|] eqn:E; [|discriminate].
+      cbn [nsem_path]. rewrite (sem_nsem e t c t1 c1 E). apply IH. exact H.
+  Qed.
+
   (* the conversions that hand the column names over to the container they produce *)
   Definition carries (e : edge) (t : tag) : bool :=
     match e, t with
-    | E_N_M, _ | E_M_N _, _ | E_N_L, _ => true
+    | E_N_M, TN _ | E_M_N _, TM | E_N_L, TN _ => true
     | E_CheckX a b, TN _ => negb a
     | E_CheckX a b, TA => negb b
     | _, _ => false
     end.
 
-  Fixpoint all_carry (es : list edge) (s : tag * cpanel) : bool :=
+  Fixpoint all_carry (es : list edge) (t : tag) : bool :=
     match es with
     | [] => true
-    | e :: es' => carries e (fst s) &&
-                  match sem e s with Some s' => all_carry es' s' | None => true end
+    | e :: es' => carries e t &&
+                  match nsem e (t, None) with Some (t', _) => all_carry es' t' | None => true end
     end.
 
-  Lemma sem_carries_names e t c t' c' :
-    carries e t = true -> sem e (t, c) = Some (t', c') -> c_names c' = c_names c.
+  Lemma nsem_tag e t nm1 nm2 t1 r1 :
+    nsem e (t, nm1) = Some (t1, r1) -> exists r2, nsem e (t, nm2) = Some (t1, r2).
+  Proof.
+    destruct e, t; cbn; try discriminate; intro H; try (inversion H; subst; eexists; reflexivity).
+    - destruct (to_np && to_pd); [discriminate|]. destruct to_np; inversion H; eexists; reflexivity.
+    - destruct (to_np && to_pd); [discriminate|]. destruct to_pd; inversion H; eexists; reflexivity.
+  Qed.
+
+  Lemma nsem_carries e t nm t1 r1 :
+    carries e t = true -> nsem e (t, nm) = Some (t1, r1) -> r1 = nm.
   Proof.
     destruct e, t; cbn; try discriminate; intros Hc H; try (inversion H; subst; reflexivity).
     - destruct to_np; [discriminate|]. cbn in H. inversion H. reflexivity.
     - destruct to_pd; [discriminate|]. rewrite andb_false_r in H. inversion H. reflexivity.
   Qed.
 
-  Lemma names_survive es t c t' c' :
-    all_carry es (t, c) = true -> sem_path es (t, c) = Some (t', c') -> c_names c' = c_names c.
+  Lemma nsem_not_carries e t nm1 nm2 t1 r1 t2 r2 :
+    carries e t = false -> nsem e (t, nm1) = Some (t1, r1) -> nsem e (t, nm2) = Some (t2, r2) ->
+    r1 = r2.
   Proof.
-    revert t c. induction es as [|e es IH]; intros t c Ha H.
+    destruct e, t; cbn; try discriminate; intros Hc H1 H2;
+      try (inversion H1; inversion H2; subst; reflexivity).
+    - destruct to_np; [|discriminate]. destruct to_pd; cbn in *; [discriminate|].
+      inversion H1; inversion H2; subst; reflexivity.
+    - destruct to_pd; [|discriminate]. destruct to_np; cbn in *; [discriminate|].
+      inversion H1; inversion H2; subst; reflexivity.
+  Qed.
+
+  Lemma names_survive_n es t nm t' r :
+    all_carry es t = true -> nsem_path es (t, nm) = Some (t', r) -> r = nm.
+  Proof.
+    revert t. induction es as [|e es IH]; intros t Ha H.
     - inversion H. reflexivity.
-    - cbn [all_carry fst] in Ha. apply andb_true_iff in Ha. destruct Ha as [Ha1 Ha2].
-      cbn [sem_path] in H. destruct (sem e (t, c)) as [[t1 c1]|] eqn:E; [|discriminate].
-      rewrite (IH t1 c1 Ha2 H). eapply sem_carries_names; eassumption.
+    - cbn [all_carry] in Ha. apply andb_true_iff in Ha. destruct Ha as [Ha1 Ha2].
+      cbn [nsem_path] in H. destruct (nsem e (t, nm)) as [[t1 r1]|] eqn:E; [|discriminate].
+      destruct (nsem_tag e t nm None t1 r1 E) as [r0 E0]. rewrite E0 in Ha2.
+      rewrite (nsem_carries e t nm t1 r1 Ha1 E) in H. apply (IH t1 Ha2 H).
   Qed.
 
-  (* the resulting tag and names of a conversion depend on the input names only through them,
-     and after a non-carrying conversion not at all *)
-  Lemma sem_names_determined e t c1 c2 t1 c1' t2 c2' :
-    (carries e t = true -> c_names c1 = c_names c2) ->
-    sem e (t, c1) = Some (t1, c1') -> sem e (t, c2) = Some (t2, c2') ->
-    t1 = t2 /\ c_names c1' = c_names c2'.
+  Lemma names_forgotten_n es t nm1 nm2 t1 r1 t2 r2 :
+    all_carry es t = false ->
+    nsem_path es (t, nm1) = Some (t1, r1) -> nsem_path es (t, nm2) = Some (t2, r2) -> r1 = r2.
   Proof.
-    destruct e, t; cbn; try discriminate; intros Hn H1 H2;
-      try (inversion H1; inversion H2; subst; split; [reflexivity|]; try reflexivity;
-           apply Hn; reflexivity).
-    - destruct to_np, to_pd; cbn in *; try discriminate; inversion H1; inversion H2; subst;
-        split; try reflexivity; apply Hn; reflexivity.
-    - destruct to_np, to_pd; cbn in *; try discriminate; inversion H1; inversion H2; subst;
-        split; try reflexivity; apply Hn; reflexivity.
+    revert t nm1 nm2. induction es as [|e es IH]; intros t nm1 nm2 Ha H1 H2; [discriminate|].
+    cbn [all_carry] in Ha. cbn [nsem_path] in H1, H2.
+    destruct (nsem e (t, nm1)) as [[ta ra]|] eqn:E1; [|discriminate].
+    destruct (nsem e (t, nm2)) as [[tb rb]|] eqn:E2; [|discriminate].
+    destruct (nsem_tag e t nm1 nm2 ta ra E1) as [rb' E2']. rewrite E2 in E2'.
+    inversion E2'; subst tb rb'. clear E2'.
+    destruct (nsem_tag e t nm1 None ta ra E1) as [r0 E0]. rewrite E0 in Ha.
+    destruct (carries e t) eqn:Ec.
+    - cbn [andb] in Ha. eapply IH; eassumption.
+    - rewrite (nsem_not_carries e t nm1 nm2 ta ra ta rb Ec E1 E2) in H1.
+      rewrite H1 in H2. inversion H2. reflexivity.
   Qed.
 
-  Lemma names_determined es t c1 c2 t1 c1' t2 c2' :
-    (all_carry es (t, c1) = true -> c_names c1 = c_names c2) ->
-    sem_path es (t, c1) = Some (t1, c1') -> sem_path es (t, c2) = Some (t2, c2') ->
-    t1 = t2 /\ c_names c1' = c_names c2'.
+  (* names survive a path iff every conversion on it carries them: if all do, the names at the
+     end are the names at the start; if one does not, the names at the end are the same whatever
+     names the start had *)
+  Theorem names_survive_iff_carried es t c t' c' :
+    sem_path es (t, c) = Some (t', c') ->
+    (all_carry es t = true -> c_names c' = c_names c) /    (all_carry es t = false ->
+     forall c2 t2 c2', sem_path es (t, c2) = Some (t2, c2') -> c_names c2' = c_names c').
   Proof.
-    revert t c1 c2. induction es as [|e es IH]; intros t c1 c2 Hn H1 H2.
-    - inversion H1; inversion H2; subst. split; [reflexivity|]. apply Hn. reflexivity.
-    - cbn [sem_path] in H1, H2. cbn [all_carry fst] in Hn.
-      destruct (sem e (t, c1)) as [[ta ca]|] eqn:E1; [|discriminate].
-      destruct (sem e (t, c2)) as [[tb cb]|] eqn:E2; [|discriminate].
-      destruct (sem_names_determined e t c1 c2 ta ca tb cb) as [Ht Hc]; try assumption.
-      + intro Hcar. apply Hn. rewrite Hcar. cbn [andb].
-        (* the remaining requirement is irrelevant: show names equal only needs Hn when all carry *)
-        destruct (all_carry es (ta, ca)) eqn:Ea; [reflexivity|].
-        exfalso.
-        (* cannot conclude without all_carry: handled below by case analysis instead *)
-        admit.
-      + subst tb. eapply IH; [|exact H1|exact H2]. intro Ha. exact Hc.
-  Abort.
+    intro H. apply sem_path_nsem in H. split.
+    - intro Ha. eapply names_survive_n; eassumption.
+    - intros Ha c2 t2 c2' H2. apply sem_path_nsem in H2.
+      eapply names_forgotten_n; eassumption.
+  Qed.
 End Paths.
